@@ -19,3 +19,8 @@
 void h_pull_up(void) { nni_http_conn *c; VP_HAVOC_GHOSTS(); http_buf_pull_up(c); VP_CANARY(); }
 void h_close(void)   { nni_http_conn *c; VP_HAVOC_GHOSTS(); http_close(c); VP_CANARY(); }
 void h_rd_buf(void)  { nni_http_conn *c; nni_aio *a; VP_HAVOC_GHOSTS(); http_rd_buf(c, a); VP_CANARY(); }
+void h_rd_cancel(void) { nni_aio *a; void *c; nng_err rv; VP_HAVOC_GHOSTS(); http_rd_cancel(a, c, rv); VP_CANARY(); }
+void h_wr_cancel(void) { nni_aio *a; void *c; nng_err rv; VP_HAVOC_GHOSTS(); http_wr_cancel(a, c, rv); VP_CANARY(); }
+void h_wr_start(void)  { nni_http_conn *c; VP_HAVOC_GHOSTS(); http_wr_start(c); VP_CANARY(); }
+void h_wr_cb(void)     { void *c; VP_HAVOC_GHOSTS(); http_wr_cb(c); VP_CANARY(); }
+void h_wr_submit(void) { nni_http_conn *c; nni_aio *a; enum write_flavor f; VP_HAVOC_GHOSTS(); http_wr_submit(c, a, f); VP_CANARY(); }
